@@ -56,7 +56,7 @@ fn put_back(x: usize, ent: HEnt) {
 fn new_handle(aid: usize, h: H) -> HEnt {
     let hid = exec::fresh_hid();
     e(&[ev::HANDLE as usize, hid, aid, h.kind() as usize]);
-    HEnt { hid, aid, h }
+    HEnt { hid, aid, h, spent: false }
 }
 
 macro_rules! on_addr {
@@ -184,7 +184,7 @@ async fn step(c: usize, cop: Cop) {
         Cop::Halt { h } => {
             let Some(ent) = take(h) else { return };
             let o = op(c, ent.hid, ev::K_HALT);
-            let HEnt { hid, aid, h: hh } = ent;
+            let HEnt { hid, aid, h: hh, spent } = ent;
             match hh {
                 H::Addr(any) => {
                     // halt consumes the address; it lives inside the future until that completes
@@ -195,24 +195,25 @@ async fn step(c: usize, cop: Cop) {
                 H::WAddr(mut any) => {
                     let r = on_waddr!(&mut any, a => a.try_halt().await);
                     ret_unit(o, r);
-                    put_back(h, HEnt { hid, aid, h: H::WAddr(any) });
+                    put_back(h, HEnt { hid, aid, h: H::WAddr(any), spent });
                 }
                 other => {
                     ret_skip(o);
-                    put_back(h, HEnt { hid, aid, h: other });
+                    put_back(h, HEnt { hid, aid, h: other, spent });
                 }
             }
         }
         Cop::Await { h, by_ref } => {
             let Some(ent) = take(h) else { return };
-            let HEnt { hid, aid, h: hh } = ent;
+            let HEnt { hid, aid, h: hh, spent } = ent;
             match hh {
+                H::Addr(any) if spent => put_back(h, HEnt { hid, aid, h: H::Addr(any), spent }),
                 H::Addr(mut any) => {
                     if by_ref {
                         let o = op(c, hid, ev::K_AWAIT_REF);
                         let r = on_addr!(&mut any, a => a.await);
                         ret_unit(o, r);
-                        put_back(h, HEnt { hid, aid, h: H::Addr(any) });
+                        put_back(h, HEnt { hid, aid, h: H::Addr(any), spent: true });
                     } else {
                         let o = op(c, hid, ev::K_AWAIT);
                         let r = on_addr!(any, a => a.await);
@@ -220,7 +221,7 @@ async fn step(c: usize, cop: Cop) {
                         ret_unit(o, r);
                     }
                 }
-                other => put_back(h, HEnt { hid, aid, h: other }),
+                other => put_back(h, HEnt { hid, aid, h: other, spent }),
             }
         }
         Cop::Clone { x, h } => {
@@ -234,10 +235,12 @@ async fn step(c: usize, cop: Cop) {
                 H::WCaller(s) => Some(H::WCaller(s.clone())),
                 H::Owning(_) => None,
             };
-            let aid = ent.aid;
+            let (aid, sp) = (ent.aid, ent.spent);
             put_back(h, ent);
             if let Some(n) = n {
-                put(x, new_handle(aid, n));
+                let mut nh = new_handle(aid, n);
+                nh.spent = sp;
+                put(x, nh);
             }
         }
         Cop::Convert { x, h, k } => {
@@ -263,10 +266,12 @@ async fn step(c: usize, cop: Cop) {
                 (H::Caller(s), HKind::WCaller) => Some(H::WCaller(s.downgrade())),
                 _ => None,
             };
-            let aid = ent.aid;
+            let (aid, sp) = (ent.aid, ent.spent);
             put_back(h, ent);
             if let Some(n) = n {
-                put(x, new_handle(aid, n));
+                let mut nh = new_handle(aid, n);
+                nh.spent = sp;
+                put(x, nh);
             }
         }
         Cop::Upgrade { x, h } => {
@@ -277,12 +282,14 @@ async fn step(c: usize, cop: Cop) {
                 H::WCaller(s) => Some(s.upgrade().map(H::Caller)),
                 _ => None,
             };
-            let (aid, hid) = (ent.aid, ent.hid);
+            let (aid, hid, sp) = (ent.aid, ent.hid, ent.spent);
             put_back(h, ent);
             if let Some(r) = n {
                 e(&[ev::UPG as usize, hid, r.is_some() as usize]);
                 if let Some(n) = r {
-                    put(x, new_handle(aid, n));
+                    let mut nh = new_handle(aid, n);
+                    nh.spent = sp;
+                    put(x, nh);
                 }
             }
         }
@@ -331,7 +338,7 @@ async fn step(c: usize, cop: Cop) {
         }
         Cop::Consume { h } => {
             let Some(ent) = take(h) else { return };
-            let HEnt { hid, aid, h: hh } = ent;
+            let HEnt { hid, aid, h: hh, spent } = ent;
             match hh {
                 H::Owning(any) => {
                     let o = op(c, hid, ev::K_CONSUME);
@@ -339,12 +346,12 @@ async fn step(c: usize, cop: Cop) {
                     e(&[ev::DROP as usize, hid]);
                     ret_vals(o, r);
                 }
-                other => put_back(h, HEnt { hid, aid, h: other }),
+                other => put_back(h, HEnt { hid, aid, h: other, spent }),
             }
         }
         Cop::Detach { x, h } => {
             let Some(ent) = take(h) else { return };
-            let HEnt { hid, aid, h: hh } = ent;
+            let HEnt { hid, aid, h: hh, spent } = ent;
             match hh {
                 H::Owning(any) => {
                     let a = on_owning!(any, a => Wrap::wa(a.detach()));
@@ -352,7 +359,7 @@ async fn step(c: usize, cop: Cop) {
                     e(&[ev::DROP as usize, hid]);
                     put(x, n);
                 }
-                other => put_back(h, HEnt { hid, aid, h: other }),
+                other => put_back(h, HEnt { hid, aid, h: other, spent }),
             }
         }
         Cop::Stopped { h } | Cop::Running { h } => {
@@ -399,7 +406,7 @@ async fn step(c: usize, cop: Cop) {
         Cop::Register { h } | Cop::Replace { h } => {
             let replace = matches!(cop, Cop::Replace { .. });
             let Some(ent) = take(h) else { return };
-            let HEnt { hid, aid, h: hh } = ent;
+            let HEnt { hid, aid, h: hh, spent } = ent;
             macro_rules! reg {
                 ($a:expr, $ty:expr, $v:ident) => {{
                     let o = exec::fresh_oid();
@@ -416,7 +423,7 @@ async fn step(c: usize, cop: Cop) {
                                 let inst = old.as_ref().and_then(|x| exec::aid_of_ctx(verif::addr_id(x)));
                                 e(&[ev::RET as usize, o, ev::R_INST as usize, inst.map(|i| i + 1).unwrap_or(0)]);
                                 drop(old);
-                                put_back(h, HEnt { hid, aid, h: H::Addr(AnyAddr::$v(me)) });
+                                put_back(h, HEnt { hid, aid, h: H::Addr(AnyAddr::$v(me)), spent });
                             }
                             Err(er) => {
                                 // the address was consumed by the failed call
@@ -430,7 +437,7 @@ async fn step(c: usize, cop: Cop) {
             match hh {
                 H::Addr(AnyAddr::T1(a)) => reg!(a, 1, T1),
                 H::Addr(AnyAddr::T2(a)) => reg!(a, 2, T2),
-                other => put_back(h, HEnt { hid, aid, h: other }),
+                other => put_back(h, HEnt { hid, aid, h: other, spent }),
             }
         }
         Cop::Unregister { x, ty } => {
